@@ -12,8 +12,7 @@
              else:
                  return path
          else:
-             return path_processor.join(new_dir,
-                        *os.path.relpath(urllib.parse.unquote(path), old_dir).split(os.path.sep))
+             return path_processor.join(new_dir, *os.path.relpath(path, old_dir).split(os.path.sep))
 
    Strings are sequences of one-character strings over a small alphabet; `Unquote`, `RelParts`
    (= relpath + split), `JoinDir` (= posixpath.join) are sequence rewritings written after the Python
@@ -127,7 +126,7 @@ Remap(s, old, new) ==
        \* path[7:], NOT urlsplit(path).path: a literal "#" or "?" is an ordinary character of the name
        THEN FileScheme \o JoinDir(new, RelParts(Unquote(Drop(s, 7)), old))
        ELSE s
-  ELSE JoinDir(new, RelParts(Unquote(s), old))
+  ELSE JoinDir(new, RelParts(s, old))                 \* a plain path is not percent-decoded
 
 RoundTrip(s, old, new) == Remap(Remap(s, old, new), new, old)
 
@@ -157,11 +156,10 @@ Same(kind, got, want) == IF kind \in {"loc", "locq"} /\ ~Canonical(want)
 
 \* why the transcribed function deviates (characterisation checked by TLC on the model):
 \*   - a plain path that contains ":/" is taken for a URL of an unknown scheme and returned unchanged;
-\*   - percent sequences are decoded (and, for file:// URLs, not encoded again): visible on plain paths
-\*     and on canonical URLs (a non-canonical URL is only compared up to percent-decoding)
+\*   - percent sequences of file:// URLs are decoded and not encoded again: visible on canonical URLs
+\*     (a non-canonical URL is only compared up to percent-decoding)
 \*     (there, the decoded URL must not decode any further: file:///d/%%414 -> file:///n/%A4 is another file)
 Class(kind, v) == IF kind = "path" /\ HasColonSlash(v) THEN "colon-slash-in-name:not-remapped"
-                  ELSE IF kind = "path" /\ Unquote(v) # v THEN "percent-sequence-decoded"
                   ELSE IF kind \in {"loc", "locq"} /\ Canonical(v) /\ Unquote(v) # v THEN "percent-sequence-decoded"
                   ELSE IF kind \in {"loc", "locq"} /\ ~Canonical(v) /\ Unquote(Unquote(v)) # Unquote(v) THEN "percent-sequence-decoded"
                   ELSE "none"
